@@ -145,10 +145,12 @@ impl VisitorMut for AstVerifier {
                         #[cfg(feature = "luau")]
                         Err(_) => match i64::from_str_radix(&text.as_str()[2..], 2) {
                             Ok(num) => num.to_string(),
-                            Err(_) => unreachable!(),
+                            // Cannot normalise (e.g. hex float, integer wider than 64 bits): compare the text as written
+                            Err(_) => text.to_string(),
                         },
                         #[cfg(not(feature = "luau"))]
-                        Err(_) => unreachable!(),
+                        // Cannot normalise (e.g. hex float, integer wider than 64 bits): compare the text as written
+                        Err(_) => text.to_string(),
                     },
                 };
 
